@@ -240,7 +240,7 @@ PROPS["C18"] = {
     "theorems": ["Rough.Props.C18.C18_workers"],
     "streams": [{"args": ["workers"], "shards_quick": 6, "shards_thorough": 16, "timeout": 1500}],
     "ops": ["mw"], "trivial": r"^$", "min_nontrivial": 4,
-    "rule": "real server binary with num_workers in {2,16} (quick) / {1,2,4,8,16} (thorough), rounds of 1..64 concurrent closed-loop harness clients (own sockets, mixed classic/IETF, 8 or 12 requests each, no retransmission, 1.5 s timeout), 3 (quick) / 30 (thorough) seeded rounds per worker count; every reply verified by the Lean spec verifier for its own request under the seed's long-term key; lost, invalid, duplicate (extra) replies, live worker threads and panic output counted. every round is a distinct case",
+    "rule": "real server binary with num_workers in {1,2,16} (quick) / {1,2,4,8,16} (thorough), rounds of 1..64 concurrent harness clients (own sockets, mixed classic/IETF, 8 or 12 requests each, no retransmission, 1.5 s timeout), closed-loop or firing all requests at once, batch_size rotating over {64,1,2,63}, 4 (quick) / 30 (thorough) seeded rounds per worker count; every reply verified by the Lean spec verifier for its own request under the seed's long-term key; lost, invalid, duplicate (extra) replies, live worker threads and panic output counted. every round is a distinct case",
     "trusted_base": PROC_TB,
     "assumptions": ["PARTIAL: 'every schedule' is reduced to 'every assignment of datagrams to workers and every chunking' (the theorem's quantifier); that the kernel delivers each datagram to exactly one socket and that crossbeam/mio are data-race free is trusted (safe Rust)"],
     "design_ref": "5/C18",
